@@ -104,21 +104,29 @@ func (s *Service) ScheduleJob(ctx context.Context,
 
 	s.log.Trace().Str("job", name).Time("scheduled", runtime).Msg("Scheduled job")
 	go func() {
+		defer verifPoint(job, "GExit")
+		verifPoint(job, "GStart")
 		select {
 		case <-ctx.Done():
+			verifPoint(job, "GSelCtx")
 			s.log.Trace().Str("job", name).Time("scheduled", runtime).Msg("Parent context done; job not running")
 			s.jobsMutex.Lock()
 			delete(s.jobs, name)
 			s.jobsMutex.Unlock()
+			verifPoint(job, "GCtxDeleted")
 			finaliseJob(job)
+			verifPoint(job, "GKFinalised")
 			monitorJobCancelled(class)
 		case <-job.cancelCh:
+			verifPoint(job, "GSelCancel")
 			s.log.Trace().Str("job", name).Time("scheduled", runtime).Msg("Cancel triggered; job not running")
 			// If we receive this signal the job has already been deleted from the jobs list so no need to
 			// do so again here.
 			finaliseJob(job)
+			verifPoint(job, "GKFinalised")
 			monitorJobCancelled(class)
 		case <-job.runCh:
+			verifPoint(job, "GSelRun")
 			s.log.Trace().Str("job", name).Time("scheduled", runtime).Msg("Run triggered; job running")
 			// If we receive this signal the job has already been deleted from the jobs list so no need to
 			// do so again here.
@@ -126,23 +134,32 @@ func (s *Service) ScheduleJob(ctx context.Context,
 			jobFunc(ctx)
 			s.log.Trace().Str("job", name).Time("scheduled", runtime).Msg("Job complete")
 			finaliseJob(job)
+			verifPoint(job, "GRFinalised")
 			job.active.Store(false)
+			verifPoint(job, "GRReset")
 		case <-time.After(time.Until(runtime)):
+			verifPoint(job, "GSelTimer")
 			// It is possible that the job is already active, so check that first before proceeding.
 			if job.active.Load() {
+				verifPoint(job, "GTActive")
 				s.log.Trace().Str("job", name).Time("scheduled", runtime).Msg("Already running; job not running")
 				break
 			}
+			verifPoint(job, "GTInactive")
 			s.jobsMutex.Lock()
 			delete(s.jobs, name)
 			s.jobsMutex.Unlock()
+			verifPoint(job, "GTDeleted")
 			s.log.Trace().Str("job", name).Time("scheduled", runtime).Msg("Timer triggered; job running")
 			job.active.Store(true)
+			verifPoint(job, "GTClaimed")
 			monitorJobStartedOnTimer(class)
 			jobFunc(ctx)
 			s.log.Trace().Str("job", name).Time("scheduled", runtime).Msg("Job complete")
 			job.active.Store(false)
+			verifPoint(job, "GTReset")
 			finaliseJob(job)
+			verifPoint(job, "GTFinalised")
 		}
 	}()
 
@@ -186,6 +203,8 @@ func (s *Service) SchedulePeriodicJob(ctx context.Context,
 	monitorJobScheduled(class)
 
 	go func() {
+		defer verifPoint(job, "GExit")
+		verifPoint(job, "GStart")
 		for {
 			runtime, err := runtimeFunc(ctx)
 			if errors.Is(err, scheduler.ErrNoMoreInstances) {
@@ -193,7 +212,9 @@ func (s *Service) SchedulePeriodicJob(ctx context.Context,
 				s.jobsMutex.Lock()
 				delete(s.jobs, name)
 				s.jobsMutex.Unlock()
+				verifPoint(job, "GNoMoreDeleted")
 				finaliseJob(job)
+				verifPoint(job, "GKFinalised")
 				monitorJobCancelled(class)
 				return
 			}
@@ -202,42 +223,56 @@ func (s *Service) SchedulePeriodicJob(ctx context.Context,
 				s.jobsMutex.Lock()
 				delete(s.jobs, name)
 				s.jobsMutex.Unlock()
+				verifPoint(job, "GNoMoreDeleted")
 				finaliseJob(job)
+				verifPoint(job, "GKFinalised")
 				monitorJobCancelled(class)
 				return
 			}
 			s.log.Trace().Str("job", name).Time("scheduled", runtime).Msg("Scheduled job")
 			select {
 			case <-ctx.Done():
+				verifPoint(job, "GSelCtx")
 				s.log.Trace().Str("job", name).Time("scheduled", runtime).Msg("Parent context done; job not running")
 				s.jobsMutex.Lock()
 				delete(s.jobs, name)
 				s.jobsMutex.Unlock()
+				verifPoint(job, "GCtxDeleted")
 				finaliseJob(job)
+				verifPoint(job, "GKFinalised")
 				monitorJobCancelled(class)
 				return
 			case <-job.cancelCh:
+				verifPoint(job, "GSelCancel")
 				s.log.Trace().Str("job", name).Time("scheduled", runtime).Msg("Cancel triggered; job not running")
 				finaliseJob(job)
+				verifPoint(job, "GKFinalised")
 				monitorJobCancelled(class)
 				return
 			case <-job.runCh:
+				verifPoint(job, "GSelRun")
 				s.log.Trace().Str("job", name).Time("scheduled", runtime).Msg("Run triggered; job running")
 				monitorJobStartedOnSignal(class)
 				jobFunc(ctx)
 				s.log.Trace().Str("job", name).Time("scheduled", runtime).Msg("Job complete")
 				job.active.Store(false)
+				verifPoint(job, "GRReset")
 			case <-time.After(time.Until(runtime)):
+				verifPoint(job, "GSelTimer")
 				if job.active.Load() {
+					verifPoint(job, "GTActive")
 					s.log.Trace().Str("job", name).Time("scheduled", runtime).Msg("Already running; job not running")
 					continue
 				}
+				verifPoint(job, "GTInactive")
 				job.active.Store(true)
+				verifPoint(job, "GTClaimed")
 				s.log.Trace().Str("job", name).Time("scheduled", runtime).Msg("Timer triggered; job running")
 				monitorJobStartedOnTimer(class)
 				jobFunc(ctx)
 				s.log.Trace().Str("job", name).Time("scheduled", runtime).Msg("Job complete")
 				job.active.Store(false)
+				verifPoint(job, "GTReset")
 			}
 		}
 	}()
@@ -316,6 +351,7 @@ func (s *Service) CancelJob(_ context.Context, name string) error {
 	delete(s.jobs, name)
 	s.jobsMutex.Unlock()
 
+	verifPoint(job, "KPreLock")
 	job.stateLock.Lock()
 	if job.finalised.Load() {
 		// Already marked to be cancelled.
@@ -370,6 +406,7 @@ func finaliseJob(job *job) {
 // This is an internal function, called once the job has been removed from the queue.
 // skipcq: RVV-B0001
 func (*Service) runJob(_ context.Context, job *job) error {
+	verifPoint(job, "RPreLock")
 	job.stateLock.Lock()
 	if job.active.Load() {
 		job.stateLock.Unlock()
@@ -380,6 +417,7 @@ func (*Service) runJob(_ context.Context, job *job) error {
 		return scheduler.ErrJobFinalised
 	}
 	job.active.Store(true)
+	verifPoint(job, "RClaimed")
 	job.runCh <- struct{}{}
 	job.stateLock.Unlock()
 
